@@ -293,7 +293,8 @@ lm_scenario(const Plan& p, const LmProblem& pr, int threads, const sc::Params& s
       lobj->compute_sub_gradient_without_penalty_plus_sensitivity(*g, *pr.lambda, s);
       x = img(*g);
       o.v.insert(o.v.end(), x.begin(), x.end());
-      o.d.push_back(lobj->compute_objective_function_without_penalty(*pr.lambda, s));
+      // (the list-mode VALUE is not requested: neither C14 nor C18 names it, and LM_distributable_computation forms a reference
+      //  from a null per-thread image pointer on that path -- harmless in practice, but libstdc++'s assertions abort on it)
       g->fill(0.f);
       lobj->accumulate_sub_Hessian_times_input_without_penalty(*g, *pr.lambda, *pr.input, s);
       x = img(*g);
